@@ -90,6 +90,7 @@ def run(ctx):
     nt = lambda c, i: i.startswith("(")
     ndocs = ctx.scale(4000, 30000)
     cases, meta = [], []      # meta: (expected, group, key-if-known-class, docinfo)
+    tie_groups = []           # [spec_tie] (doc, enc, text, shape, expected, first case, number of cases)
     for _ in range(ndocs):
         esc_ok = rng.random() < 0.15
         doc = D.gen_doc(rng, ops=True, allow_escape=esc_ok)
@@ -112,6 +113,7 @@ def run(ctx):
         shs = D.shape_str(sh)
         g = len(meta)
         paths = ["slice", "tape", "objreader"] + reader_variants(rng, doc, enc, esc)
+        tie_groups.append((doc, enc, txt, sh, exp, len(cases), len(paths)))      # [spec_tie]
         for p in paths:
             known = "H-stream-header" if (hdr and "reader:" in p) else None
             cases.append("\t".join(["de.text", p, enc, shs, hx(txt)]))
@@ -139,6 +141,15 @@ def run(ctx):
             else:
                 pk = p.split(":")[0].split("@")[0]
                 ctx.fail("value-" + pk, "%s path returns %s, the document's values are %s" % (p, o[:200], exp[:200]), [cases[k]], [o], exp)
+
+    # ---- [spec_tie] BEGIN: the Coq specification (TextDeSpec.spec_value over TextDoc, TextDoc.render / flatten,
+    # TextDeSpec.tokens -- what Props/C02_walk.v is stated over) extracted and run on the documents, shapes and
+    # renderings generated above; see props/spectie.py.  (a) D.render_text = TextDoc.render of the converted document
+    # under the gaps of the rendering, byte for byte; (b) D.expected = spec_value; (c) every path's value above =
+    # spec_value; plus: the implementation's tape / reader tokens of the rendering = flatten / tokens of the document.
+    from props import spectie
+    spectie.run_text(ctx, tie_groups, cases, impl, base, ctx.scale(1500, 12000))
+    # ---- [spec_tie] END
 
     # fixed replays of the known deviations (each is re-found on every run; silent once the code is repaired)
     fcases = []
